@@ -30,7 +30,7 @@ ASSUMPTIONS = ['"cleared caches" stands for "fresh process" inside a history; th
                'processes to validate that assumption',
                'the reference subprocesses run with socket.socket / create_connection / getaddrinfo patched to raise, so any network use would '
                'show as a different outcome']
-RULE = RULE + '; the schema check also over the sample documents and over harness-made schemas on which Draft 3 / 4 / 6 / 7 disagree; ALL ordered pairs of calls whose keys differ only in the directory of a like-named file or only in the validator class; every call of the universe must end in a documented outcome (True, False, ValidationError, SchemaError) in the fresh process'
+RULE = RULE + '; one call per bundled file also in a fresh process of another kind (C locale without UTF-8 mode, UTC+14, python -O) and every sample / schema also in a fresh process of the INSTALLED package layout (schemas inside the package, as setup.py ships it); the schema check also over the sample documents and over harness-made schemas on which Draft 3 / 4 / 6 / 7 disagree; ALL ordered pairs of calls whose keys differ only in the directory of a like-named file or only in the validator class; every call of the universe must end in a documented outcome (True, False, ValidationError, SchemaError) in the fresh process'
 
 VALIDATORS = ['Draft3Validator', 'Draft4Validator', 'Draft6Validator', 'Draft7Validator']
 SYNTH = os.path.join(VERIF, 'checks', 'c19_synth')      # harness-made schemas on which the validator classes disagree
@@ -156,15 +156,20 @@ OTHER_ENV = {'LC_ALL': 'C', 'LANG': 'C', 'PYTHONUTF8': '0', 'PYTHONCOERCECLOCALE
              'PYTHONOPTIMIZE': '1'}
 
 
-def run_fresh(calls, other_env=False):
+def run_fresh(calls, other_env=False, site=None):
     """Run one history (list of calls) in ONE new interpreter with the network blocked; returns the outcomes.  other_env:
     a fresh process of another kind - plain C locale without UTF-8 mode (files are then read as ASCII unless the library
     says otherwise), another time zone, asserts compiled away: "a fresh process" is any fresh process."""
     env = dict(os.environ)
     if other_env:
         env.update(OTHER_ENV)
+    cwd = VERIF
+    if site:
+        # the INSTALLED layout (what setup.py ships: the schemas inside the package as athlib/json-schemas, no json/ beside it)
+        env['PYTHONPATH'] = os.pathsep.join([site, VERIF, os.path.join(VERIF, '.deps')])
+        cwd = os.path.dirname(site)
     p = subprocess.run([sys.executable, '-c', FRESH_SNIPPET % {'verif': VERIF}], input=json.dumps([list(c) for c in calls]),
-                       env=env, stdout=subprocess.PIPE, stderr=subprocess.PIPE, text=True, cwd=VERIF)
+                       env=env, stdout=subprocess.PIPE, stderr=subprocess.PIPE, text=True, cwd=cwd)
     for line in p.stdout.splitlines():
         if line.startswith('RESULT'):
             return json.loads(line[6:])
@@ -192,6 +197,32 @@ def other_env_worker(ctx, payload):
                             {'calls': [list(c)], 'fresh': {json.dumps(list(c)): want}, 'other_env': True}, got, want))
 
 
+def make_installed_site(root):
+    """<root>/site/athlib = the package with the schemas inside it (json/ copied to athlib/json-schemas, as `setup.py sdist`
+    does); nothing else of the repository is beside it."""
+    import shutil
+    site = os.path.join(root, 'site')
+    shutil.copytree(os.path.join(REPO, 'athlib'), os.path.join(site, 'athlib'), ignore=shutil.ignore_patterns('__pycache__', 'json-schemas'))
+    shutil.copytree(os.path.join(REPO, 'json'), os.path.join(site, 'athlib', 'json-schemas'))
+    return site
+
+
+def installed_worker(ctx, payload):
+    """The same calls made first in a fresh process of the INSTALLED package (documents by absolute path, schemas by their
+    customary names): the same outcomes as in the source checkout."""
+    calls, fresh, site = payload
+    for c in calls:
+        d = c[1] if c[0] == 'sv' else os.path.join(REPO, c[1])
+        c2 = (c[0], d, c[2], c[3])
+        got = run_fresh([c2], site=site)[0]
+        want = fresh[json.dumps(list(c))]
+        ctx.count()
+        ctx.label('fresh-process-of-the-installed-package')
+        if got != want:
+            ctx.violation(V('same-as-fresh-process', ['installed-layout-differs', c[0], 'got-' + klass(got).split(':')[-1]],
+                            {'calls': [list(c)], 'fresh': {json.dumps(list(c)): want}, 'installed': True}, got, want))
+
+
 def key_of(c):
     return (c[0], c[1], c[2])
 
@@ -202,6 +233,20 @@ def examine(case):
     clear_caches()
     out = []
     hist = []
+    if case.get('installed'):
+        import tempfile
+        import shutil
+        c = tuple(case['calls'][0])
+        root = tempfile.mkdtemp(prefix='athlib-c19-installed-', dir='/dev/shm' if os.path.isdir('/dev/shm') else None)
+        try:
+            site = make_installed_site(root)
+            d = c[1] if c[0] == 'sv' else os.path.join(REPO, c[1])
+            got, want = run_fresh([(c[0], d, c[2], c[3])], site=site)[0], run_fresh([c])[0]
+        finally:
+            shutil.rmtree(root, ignore_errors=True)
+        if got != want:
+            out.append(V('same-as-fresh-process', ['installed-layout-differs', c[0], 'got-' + klass(got).split(':')[-1]], case, got, want))
+        return out
     if case.get('other_env'):
         c = tuple(case['calls'][0])
         got, want = run_fresh([c], other_env=True)[0], run_fresh([c])[0]
@@ -380,6 +425,21 @@ def run(ctx):
                 per_file.setdefault(c[2], c)
     oc = sorted(per_file.values())
     run_shards(ctx, 'checks.c19', 'other_env_worker', [(oc[i::16], fresh) for i in range(16)], disjoint=True)
+    # 2d. the installed layout: every sample against its own schema, every schema checked
+    import tempfile
+    import shutil
+    ic = [c for c in allcalls if not c[3] and (
+        (c[0] == 'va' and c[1].startswith('sample-jsons/') and c[2].startswith('json/') and
+         os.path.basename(c[1]).split('_')[0].split('.')[0] in os.path.basename(c[2])) or
+        (c[0] == 'sv' and c[1].startswith('json/') and c[2] == 'Draft4Validator'))]
+    ic += [(c[0], c[1], c[2], True) for c in ic if c[0] == 'va']
+    root = tempfile.mkdtemp(prefix='athlib-c19-installed-', dir='/dev/shm' if os.path.isdir('/dev/shm') else None)
+    try:
+        site = make_installed_site(root)
+        run_shards(ctx, 'checks.c19', 'installed_worker', [(ic[i::16], fresh, site) for i in range(16)], disjoint=True)
+    finally:
+        shutil.rmtree(root, ignore_errors=True)
+    ctx.extra['installed_layout_calls'] = len(ic)
     # 3. histories
     rng = random.Random(derive_seed(ctx.seed, 'C19'))
     false_keys = [c for c in allcalls if fresh[json.dumps(list(c))] != 'True' and not c[3]]
